@@ -33,15 +33,20 @@ def run_case(case):
            "outcome": (len(points), tuple(sorted((tuple(int(x) for x in c.levelvector), c.coefficient) for c in sa.scheme))),
            "nontrivial": len(history) > 0}
     if case.get("want_events", False):
-        res["events"] = dw.events(sa, config.get("s", 1))
+        res["events"] = dw.events_for(sa, config)
     return res
 
 
 def configs(tier):
     out = []
 
-    def add(d, lmin, lmax, version, reb, bnd, D, s):
-        out.append(({"d": d, "lmin": lmin, "lmax": lmax, "version": version, "rebalancing": reb, "boundary": bnd, "s": s}, D))
+    def add(d, lmin, lmax, version, reb, bnd, D, s, towards=None):
+        c = {"d": d, "lmin": lmin, "lmax": lmax, "version": version, "rebalancing": reb, "boundary": bnd, "s": s}
+        if towards:
+            c["towards"] = towards
+        out.append((c, D))
+    T2 = [[0.3, 0.3], [0.3, 0.8]]
+    T3 = [[0.3, 0.3, 0.3], [0.8, 0.3, 0.6]]
     if tier == "quick":
         for version in (6, 2, 3, 7, 8):
             for reb in (True, False):
@@ -53,7 +58,20 @@ def configs(tier):
             add(1, 1, 2, 6, reb, True, 3, 2)
             add(3, 1, 2, 6, reb, True, 2, 1)
         add(3, 1, 3, 6, True, False, 1, 1)
+        # graded refinement towards a point: deep histories with few events per state
+        for version in (6, 7, 8, 2, 3):
+            for reb in (False, True):
+                add(2, 1, 2, version, reb, True, 5, 1, towards=T2)
+        add(2, 1, 2, 6, False, False, 5, 1, towards=T2)
+        add(3, 1, 2, 6, True, True, 3, 1, towards=T3)
+        add(3, 1, 2, 6, False, True, 3, 1, towards=T3)
     else:
+        for version in (6, 7, 8, 2, 3):
+            for reb in (False, True):
+                for bnd in (True, False):
+                    add(2, 1, 2, version, reb, bnd, 6, 1, towards=T2 + [[0.6, 0.1]])
+                add(3, 1, 2, version, reb, True, 4, 1, towards=T3)
+                add(2, 1, 3, version, reb, True, 5, 1, towards=T2)
         for version in (6, 2, 3, 7, 8):
             for reb in (True, False):
                 for bnd in (True, False):
@@ -71,13 +89,15 @@ def main(ctx):
     ctx.determinism_probe({"config": {"d": 2, "lmin": 1, "lmax": 2, "version": 6, "rebalancing": True, "boundary": True, "s": 1},
                            "history": [[[0, 0.0, 0.25]], [[0, 0.0, 0.125], [1, 0.5, 0.75]]], "seed": ctx.seed})
     for config, D in configs(ctx.tier):
-        tag = "d%d_l%d%d_v%d_reb%d_bnd%d_D%d_s%d" % (config["d"], config["lmin"], config["lmax"], config["version"],
-                                                    config["rebalancing"], config["boundary"], D, config["s"])
+        tag = "d%d_l%d%d_v%d_reb%d_bnd%d_D%d_s%d%s" % (config["d"], config["lmin"], config["lmax"], config["version"],
+                                                      config["rebalancing"], config["boundary"], D, config["s"],
+                                                      "_towards" if config.get("towards") else "")
         st = core.bfs(ctx, config, D, tag=tag)
         ctx.bounds[tag] = st
     return ctx.finish(
         rule="state = refinement structure reached by a history of refinement decisions; events = every subset of <= s "
-             "intervals (over all dimensions) plus 'all' and 'all of one dimension', chosen through a scripted ErrorCalculator; "
+             "intervals (over all dimensions) plus 'all' and 'all of one dimension', chosen through a scripted ErrorCalculator; in the "
+             "'towards' configurations instead the interval(s) containing a target point (one dimension or all), which allows depth 5-6; "
              "BFS to depth D with canonical-state deduplication (intervals+levels+coarsening per dimension, lmax, both index sets); "
              "non-trivial = state reached by at least one refinement step",
         assumptions=["domain [0,1]^d (float-exact dyadic points); d<=3; depth/subset bounds per configuration in bounds_completed",
